@@ -324,7 +324,7 @@ def same_client_family(W):
             wrong_key = "k1" if other == "f2" else "k3"      # a token signed by the OTHER filter's key
             steps = [browse("b1", first, 1), app("b1", first), browse("b2", other, 2), app("b2", other),
                      # a third login at `other` answered with a token that only the first filter's key set would accept
-                     app("b3", other, cookie="none", url=3), {"op": "authz", "b": "b3", "sid": 3},
+                     app("b3", other, cookie="none", url=3), {"op": "authz", "b": "b3", "f": other},
                      {"op": "check", "b": "b3", "f": other, "kind": "callback", "cookie": "jar", "st": "jar", "code": "jar", "ans": dict(ANS, signKey=wrong_key)},
                      app("b3", other, url=3),
                      {"op": "check", "b": "b1", "f": first, "kind": "logout", "cookie": "jar"}, {"op": "check", "b": "b2", "f": other, "kind": "logout", "cookie": "jar"}]
@@ -366,6 +366,19 @@ def discovery_family(W):
         f = dict(F1, store=st, discovery=True)
         res.append({"id": "discovery/outage/%s" % st, "cfg": {"filters": [f]},
                     "steps": [{"op": "idpctl", "d": 1}, app("b1", "f1", cookie="none"), app("b1", "f1", cookie="none"), browse("b1", "f1", 1), app("b1", "f1")], "tags": ["discoveryOutage"]})
+    return res
+
+
+def shared_callback_family(W):
+    """Override-based filters that share the callback URI but differ in client id / secret / provider."""
+    res = []
+    for st in ("memory", "redis"):
+        for first in ("f1", "f2"):
+            f1 = dict(F1, store=st, override=True, prefix="one", sharedCallback=True)
+            f2 = dict(F2, store=st, override=True, prefix="two", idp="B", sharedCallback=True)
+            other = "f2" if first == "f1" else "f1"
+            steps = [browse("b1", first, 1), app("b1", first), browse("b2", other, 2), app("b2", other)]
+            res.append({"id": "sharedcallback/%s/%s-first" % (st, first), "cfg": {"filters": [f1, f2]}, "steps": steps, "tags": ["sharedCallback"]})
     return res
 
 
@@ -617,7 +630,7 @@ def c03(W, replay=None):
         bad = cfg_text("BSpec", dict(consts, NoExpiresInMeansExpired="TRUE"), ["OnePass", "NotStuck"], extra="PROPERTY LoginEnds\n")
         out, viol = W.tlc_exhaustive("AuthFlowBrowser", bad, "c03-design-defect", workers=4, timeout=1200, expect_violation=True)
         log("[design] with 'no expires_in means expired' the browser model %s OnePass / LoginEnds" % ("VIOLATES" if viol else "satisfies"))
-    scen = [] if replay else family(W, "C03") + same_client_family(W) + [x for x in discovery_family(W) if "outage" not in x["id"] and "pkce" not in x["id"]]
+    scen = [] if replay else family(W, "C03") + same_client_family(W) + [x for x in discovery_family(W) if "pkce" not in x["id"] and "noMethods" not in x["id"]]
     return sys_pipeline("C03", W, scen, None, ASSUME_SYS + ["callback and logout paths satisfy the trigger rules (documented precondition)",
                                                          "the browser follows every 302 and keeps cookies per RFC 6265 user-agent parsing"], replay=replay)
 
@@ -628,7 +641,7 @@ def c04(W, replay=None):
     if not replay:
         design_mc(W, "c04-design", ["ExchangeBound", "TokensFromOwnLogin"], Kinds='{"app","callback"}', MaxCode=3 if W.tier == "thorough" else 2)
         scen = family(W, "C04") + attacker_family(W, 600 if W.tier == "thorough" else 150) + parallel_family(W, 400 if W.tier == "thorough" else 40)
-        scen += family(W, "C18", "quick") + same_client_family(W) + discovery_family(W) + dup_chain_family(W)
+        scen += family(W, "C18", "quick") + same_client_family(W) + discovery_family(W) + dup_chain_family(W) + shared_callback_family(W)
     return sys_pipeline("C04", W, scen, None, ASSUME_SYS + ["the simulated token endpoint logs exactly what it was sent and is strict (RFC 6749/7636)"], replay=replay)
 
 
@@ -699,7 +712,7 @@ def c18(W, replay=None):
         out, viol = W.tlc_exhaustive("AuthFlow", af_cfg(["HonouredOnlyByCreator"], Checks="{1,2,3,4}", Filters="{1,2}", MaxInFlight=1, Attacker="TRUE", TokLife=1,
                                                        Kinds='{"app","callback"}', KeyedByIdOnly="TRUE"), "c18-design-as-coded", workers=16, timeout=3000, expect_violation=True)
         log("[design] as coded (shared store looked up by session id alone) the model %s HonouredOnlyByCreator" % ("VIOLATES" if viol else "satisfies"))
-        scen = family(W, "C18") + same_client_family(W) + discovery_family(W) + dup_chain_family(W)
+        scen = family(W, "C18") + same_client_family(W) + discovery_family(W) + dup_chain_family(W) + shared_callback_family(W)
     return sys_pipeline("C18", W, scen, None, ASSUME_SYS, replay=replay)
 
 
@@ -1164,15 +1177,29 @@ def c19(W, replay=None):
         ev = [{"op": "set", "name": "n1", "v": "v1"}, {"op": "reconcile", "name": "n1", "v": ""}]
         scen += [{"id": "c19/startup/cross-ns-first", "refs": ["n1", "lit", "n2"], "refNs": ["other", "", ""], "crossNs": True, "events": ev},
                  {"id": "c19/startup/cross-ns-last", "refs": ["n1", "lit", "n2"], "refNs": ["", "", "other"], "crossNs": True, "events": ev},
+                 {"id": "c19/startup/cross-ns-after-local-same-name", "refs": ["n1", "n1", "lit"], "refNs": ["", "other", ""], "crossNs": True, "events": ev},
+                 {"id": "c19/startup/cross-ns-before-local-same-name", "refs": ["n1", "n1", "lit"], "refNs": ["other", "", ""], "crossNs": True, "events": ev},
                  {"id": "c19/startup/own-ns-explicit", "refs": ["n1", "n1", "lit"], "refNs": ["own", "", ""], "crossNs": False, "events": ev + [{"op": "set", "name": "n1", "v": "v2"}, {"op": "reconcile", "name": "n1", "v": ""}]}]
     else:
         scen = [json.loads(l) for l in open(os.path.join(replay, "scenario.ndjson")) if l.strip()]
     index = {s_["id"]: s_ for s_ in scen}
-    trace = W.drive("TestSecret", scen, "secret")
-    v = W.validate(trace, "secret", module="SecretTrace")
-    if v["fired"].get("scenarios", 0) != len(scen):
-        raise Infra("SecretTrace judged %s scenarios, driver ran %d" % (v["fired"].get("scenarios"), len(scen)))
-    return judge("C19", W, [v], index, traces=len(scen), samples=[{"scenario": scen[0], "recorded_events": sample_events_at(trace, 4)}],
+    vs = []
+    sec = [s_ for s_ in scen if "cfg" not in s_]
+    if sec:
+        trace = W.drive("TestSecret", sec, "secret")
+        v = W.validate(trace, "secret", module="SecretTrace")
+        if v["fired"].get("scenarios", 0) != len(sec):
+            raise Infra("SecretTrace judged %s scenarios, driver ran %d" % (v["fired"].get("scenarios"), len(sec)))
+        vs.append(v)
+    # at the token endpoint: the assembled filter with the real controller; the provider sees which secret every token request carries
+    rot = [s_ for s_ in scen if "cfg" in s_] if replay else secret_rotation_family(W)
+    if rot:
+        index.update({s_["id"]: s_ for s_ in rot})
+        tr2 = W.drive("TestSys", rot, "sys")
+        vs.append(W.validate(tr2, "sys"))
+        if not sec:
+            trace = tr2
+    return judge("C19", W, vs, index, traces=len(scen) + (0 if replay else len(rot)), samples=[{"scenario": scen[0], "recorded_events": sample_events_at(trace, 4)}],
                  assumptions=["controller-runtime's fake client stands in for the API server; a Secret is kept in 'deleting' state by a finalizer",
                               "the secret a token-endpoint request would use is observed as OIDCConfig.GetClientSecret() of the very configuration objects the handlers read at request time"])
 
